@@ -128,12 +128,12 @@ class ConnectionLost(Contract):
     function = "HTTPChannel.connectionLost"
     differential = False
     calls = dict(CALLS, **{"Request.connectionLost": notify_model})
-    inputs = dict(requests=RefList("Request"), aborting=ForkBool())
+    inputs = dict(requests=RefList("Request"), aborting=ForkBool(), handling=ForkBool())  # handling: whether a request is with the application (C21-3)
     loops = {"HTTPChannel.connectionLost#0": LoopSpec(inv=lambda v: v.notified == v._i, ghost=("notified",))}
 
     def setup(self, i):
         abort_call = self.opaque("abortcall") if i.aborting else None
-        ch = self.make(http.HTTPChannel, requests=i.requests, _abortingCall=abort_call)
+        ch = self.make(http.HTTPChannel, requests=i.requests, _abortingCall=abort_call, _handlingRequest=i.handling)
         reason = self.opaque("reason")
         return dict(self=ch, args=[reason], objs=dict(ch=ch), ghost=dict(notified=0, requests=i.requests, reason=reason))
 
